@@ -279,6 +279,22 @@ def _campaign(tier, seed):
             a = rnd.choice(args.get(c, [None]))
             calls.append({'call': c, 'm': m, 's': s, 'arg': {'isnum': a is not None, 'v': a or '0'}})
         traces.append(execute(f'rq{i}', uni, calls))
+    # crafted sequences over the same universe: chains with SEVERAL worm matings whose flags differ, in both orders; re-routing
+    J = lambda m, s: {'call': 'joint', 'm': m, 's': s, 'arg': {'isnum': False, 'v': '0'}}
+    W = lambda m, s, f: {'call': 'worm', 'm': m, 's': s, 'arg': {'isnum': True, 'v': f}}
+    G = lambda m, s, e: {'call': 'gear', 'm': m, 's': s, 'arg': {'isnum': True, 'v': e}}
+    A = lambda m='M': {'call': 'assemble', 'm': m, 's': m, 'arg': {'isnum': False, 'v': '0'}}
+    crafted = [
+        [J('M', 'W'), W('W', 'Wh', '2/5'), W('Wh', 'W2', '1/20'), A()],            # self-locking stage first, free stage last
+        [J('M', 'W2'), W('W2', 'Wh', '1/20'), W('Wh', 'W', '1/20'), A()],           # no self-locking stage at all
+        [J('M', 'W2'), W('W2', 'Wh', '1/20'), J('Wh', 'W'), A(), W('W', 'Wh2', '2/5'), A()],   # flag appears only after the first assembly
+        [J('M', 'W'), W('W', 'Wh', '2/5'), J('Wh', 'S1'), G('S1', 'S2', '9/10'), J('S2', 'W2'), A()],   # last worm gear never mated (flag unset)
+        [J('M', 'S1'), G('S1', 'S2', '1'), J('M', 'H1'), G('H1', 'H2', '1/2'), A(), J('M', 'S1'), A()],   # re-routed before and after assembling
+        [J('M', 'S2'), J('S2', 'S3'), A()],                                             # duplicate names S2 / S3
+        [J('M', 'F'), J('F', 'S1'), J('S1', 'F'), A('F'), A('S1')],                     # cycle not through the motor; non-motor starts
+    ]
+    for i, calls in enumerate(crafted):
+        traces.append(execute(f'rc{i}', uni, calls))
     n_replay = len(traces)
     # code -> spec: seeded random universes with real-valued parameters in random units
     nrand = 250 if tier == 'quick' else 4000
